@@ -22,6 +22,13 @@ def run(ctx):
         ctx.judge("Judge_c16", "Judge_c16.cfg", of, label=name, chunk=10000)
         recs = ctx.read_ndjson(of)
         ctx.samples += [x["obs"]["text"] for x in recs[11:len(recs):len(recs) // 3]][:3]
+    def corrupt(r):
+        st = r["obs"].get("stmts")
+        if isinstance(st, list) and len(st) >= 2 and not r.get("bad"):
+            st.pop()
+            return True
+        return False
+    vp.binding_selftest(ctx, "Judge_c16", "Judge_c16.cfg", ctx.path("obs_query.ndjson"), corrupt, n=2000)
     return vp.case_finder
 
 
